@@ -23,8 +23,10 @@ fn explicit_byte_id(b: usize) -> u32 {
 }
 
 fn explicit_merge_id(sym: usize) -> u32 {
-    // keyed on the *result symbol*, so equal strings get equal ids
-    EXPLICIT_MERGE_ID_BASE + 3 * sym as u32
+    // keyed on the *result symbol*, so equal strings get equal ids; DEscending in
+    // the symbol index, i.e. merged-token ids are not monotone in merge rank (the
+    // implicit vocabulary already covers ids that ascend with the rank)
+    EXPLICIT_MERGE_ID_BASE + 3 * (255 - sym as u32)
 }
 
 struct Subject {
